@@ -21,6 +21,8 @@ func debugStack() []byte { return debug.Stack() }
 
 // ---- generator ---------------------------------------------------------------------------
 
+var issuerTails = []string{"", "", "", "/", "/tenant-a", "/tenant-a/"}
+
 var directUses = map[string]bool{"verify": true, "client-jwt-auth": true, "authorize-pkjwt": true}
 
 func genAssert(t *rapid.T, c *Case) *AssertCase {
@@ -28,6 +30,10 @@ func genAssert(t *rapid.T, c *Case) *AssertCase {
 	a.Use = rapid.SampledFrom([]string{"code", "verify", "bearer", "introspect", "revoke", "refresh", "client-jwt-auth", "authorize-pkjwt", "verify", "code", "bearer", "verify"}).Draw(t, "use")
 	// how the verifier is obtained (constructor), its settings and options; behind the endpoints either the stock
 	// provider (Provider.JWTProfileVerifier: request issuer, 1 h, 1 s, SubjectIsIssuer) or an application provider
+	if !directUses[a.Use] {
+		// the provider's issuer as a bare origin, with a trailing slash, with a path (the routes do not move: static issuer)
+		c.Issuer += rapid.SampledFrom(issuerTails).Draw(t, "issuer-tail")
+	}
 	a.Cfg = genVerifierCfg(t, c.Issuer, !directUses[a.Use])
 	n := len(c.Clients)
 	x := rapid.IntRange(0, n-1).Draw(t, "named")
@@ -99,7 +105,7 @@ func mutateAssert(t *rapid.T, c *Case, ac *AssertCase, x int) string {
 	y := otherIndex(t, n, x, "other")
 	Y := &c.Clients[y]
 	off, maxAge := ac.Cfg.OffsetS, ac.Cfg.MaxAgeS
-	dim := rapid.SampledFrom([]string{"impersonate", "exp", "iat", "aud", "key", "sub", "iss", "impersonate", "exp", "iat", "kid", "sig", "aud", "key", "iat", "exp", "impersonate", "alg", "extra", "timeform", "mangle", "mangle", "mangle"}).Draw(t, "dim")
+	dim := rapid.SampledFrom([]string{"impersonate", "exp", "iat", "aud", "key", "sub", "iss", "impersonate", "exp", "iat", "kid", "sig", "aud", "key", "iat", "exp", "impersonate", "alg", "extra", "timeform", "mangle", "mangle", "mangle", "sub", "sub", "aud"}).Draw(t, "dim")
 	switch dim {
 	case "impersonate":
 		// X's key material, but the assertion names Y
@@ -116,6 +122,10 @@ func mutateAssert(t *rapid.T, c *Case, ac *AssertCase, x int) string {
 		a.Sub = rapid.SampledFrom([]*string{sp(Y.ID), sp("user-1"), sp("blocked"), sp(""), nil, sp(strings.ToUpper(X.ID))}).Draw(t, "sub")
 	case "aud":
 		is := ac.Cfg.Issuer
+		if rapid.IntRange(0, 2).Draw(t, "audkind") > 0 {
+			a.Aud = genNearMissAud(t, is)
+			break
+		}
 		tokenEP := strings.TrimSuffix(is, "/") + "/oauth/token"
 		a.Aud = rapid.SampledFrom([]any{
 			is, []string{is, "https://other.example.net"}, []string{"https://other.example.net", is}, []string{is, tokenEP}, []string{is, is},
@@ -185,6 +195,90 @@ func mutateAssert(t *rapid.T, c *Case, ac *AssertCase, x int) string {
 		}
 	}
 	return dim
+}
+
+// nearMissAuds: strings that are not the issuer but relate to it the way a sloppy comparison would let through - the issuer
+// as a strict prefix (another host that merely starts with it, userinfo trick, path / query / fragment extension, trailing
+// slash, trailing blank), a strict prefix of the issuer (last character / trailing slash / path dropped), the same URL in
+// another spelling (case of scheme / host / everything, default port, http), leading blank.
+func nearMissAuds(is string) []string {
+	bare := strings.TrimSuffix(is, "/")
+	cand := []string{
+		bare + ".evil.net", bare + ".evil.net/oauth/token", bare + "@evil.example.net", bare + "@evil.example.net/oauth/token", bare + "munity",
+		is + "/", bare + "/oauth/token", is + "x", is + "?x=1", is + "#", is + " ", " " + is, bare,
+		strings.ToUpper(is), strings.Replace(is, "https://", "HTTPS://", 1), strings.Replace(is, "https://", "http://", 1),
+	}
+	if len(is) > 1 {
+		cand = append(cand, is[:len(is)-1])
+	}
+	if u, err := url.Parse(is); err == nil && u.Host != "" {
+		up := *u
+		up.Host = strings.ToUpper(u.Host)
+		cand = append(cand, up.String())
+		port := *u
+		port.Host = u.Host + ":443"
+		cand = append(cand, port.String())
+		if u.Path != "" && u.Path != "/" {
+			cand = append(cand, u.Scheme+"://"+u.Host, u.Scheme+"://"+u.Host+"/", u.Scheme+"://"+u.Host+strings.ToUpper(u.Path))
+		}
+	}
+	seen := map[string]bool{is: true, "": true}
+	var out []string
+	for _, c := range cand {
+		if !seen[c] {
+			seen[c] = true
+			out = append(out, c)
+		}
+	}
+	return out
+}
+
+// genNearMissAud: an audience made of near-misses of the issuer, alone or next to other audiences (and, 1 in 6, next to the
+// issuer itself: that one names the provider).
+func genNearMissAud(t *rapid.T, is string) any {
+	nm := nearMissAuds(is)
+	a := rapid.SampledFrom(nm).Draw(t, "nearmiss")
+	b := rapid.SampledFrom(nm).Draw(t, "nearmiss2")
+	const other = "https://other.example.net"
+	switch rapid.IntRange(0, 5).Draw(t, "nearform") {
+	case 0:
+		return a
+	case 1:
+		return []string{a}
+	case 2:
+		return []string{other, a}
+	case 3:
+		return []string{a, b}
+	case 4:
+		return []string{a, other, b}
+	}
+	return []string{a, is}
+}
+
+// audClass names the relation of an audience to the issuer (label only).
+func audClass(aud any, is string) string {
+	l := audList(aud)
+	if contains(l, is) {
+		if len(l) == 1 {
+			return "issuer"
+		}
+		return "issuer-among-others"
+	}
+	if len(l) == 0 {
+		return "none"
+	}
+	class := "unrelated"
+	for _, x := range l {
+		switch {
+		case strings.HasPrefix(x, is):
+			return "issuer-is-prefix"
+		case strings.HasPrefix(is, x) && x != "":
+			class = "prefix-of-issuer"
+		case strings.EqualFold(strings.TrimSpace(x), is) && class == "unrelated":
+			class = "other-spelling"
+		}
+	}
+	return class
 }
 
 // ---- forge -----------------------------------------------------------------------------------
@@ -451,9 +545,14 @@ func modelAssertion(c Case, a AssertSpec, cfg VerifierCfg) verdict {
 			soft("custom-check-refuses")
 		}
 	case "nil":
-		// the option was used, with no check in it: the statement does not say whether that counts as "configured";
-		// neither the subject clause nor acceptance is judged, every other clause is
+		// SubjectCheck(nil) / a verifier literal without CheckSubject: no custom subject check is configured, so the
+		// clause "subject equals issuer" is in force - judged for soundness only (claims returned without error although
+		// sub != iss). Whether such a verifier has to accept anything is not judged (the library calls the nil func:
+		// a panic / an error there counts as a refusal).
 		soft("nil-subject-check")
+		if strOr(a.Sub) != strOr(a.Iss) {
+			rej("sub")
+		}
 	default:
 		if strOr(a.Sub) != strOr(a.Iss) {
 			rej("sub")
@@ -945,6 +1044,16 @@ func judgeAssertion(c Case, res *vkit.Result, use string, a AssertSpec, cfg Veri
 	}
 
 	res.Label("keyrel:" + strings.SplitN(v.rel, ":", 2)[0])
+	res.Label("aud:"+audClass(a.Aud, cfg.Issuer), "aud:"+issuerShape(cfg.Issuer)+":"+audClass(a.Aud, cfg.Issuer))
+	if len(v.reject) == 1 && (v.reject[0] == "sub" || v.reject[0] == "aud") {
+		// every other condition holds: the case discriminates exactly this clause
+		res.Label("reject-only:" + v.reject[0])
+		if v.reject[0] == "sub" {
+			res.Label("reject-only:sub:check=" + cfg.SubjectCheck + ":ctor=" + cfg.Ctor)
+		} else {
+			res.Label("reject-only:aud:" + audClass(a.Aud, cfg.Issuer))
+		}
+	}
 	if a.Tok.Mangle != "" {
 		res.Label("mangle:"+mangleClass(a.Tok.Mangle), "mangle:"+use+":"+mangleClass(a.Tok.Mangle), "mangled:"+a.Tok.Mangle)
 	}
@@ -1006,6 +1115,23 @@ func judgeAssertion(c Case, res *vkit.Result, use string, a AssertSpec, cfg Veri
 	res.Key = fmt.Sprintf("assert|%s|%s|v=%d|r=%v|w=%v|s=%v|rel=%s|kidsame=%v|alg=%s|sig=%s|exp=%d%s|iat=%d%s|cfg=%s/%d/%d/%s|body=%s|extra=%s|primed=%d|acc=%v|kf=%s",
 		use, c.Router, vv, v.reject, v.grey, soft, v.rel, same, a.Tok.Alg, a.Tok.Sig+"/"+a.Tok.Mangle, a.Exp.Rel, a.Exp.Form, a.Iat.Rel, a.Iat.Form,
 		cfg.Issuer, cfg.MaxAgeS, cfg.OffsetS, cfg.SubjectCheck+"@"+cfg.Ctor, bodyID, a.Extra, primers, o.Accepted, keyFault)
+}
+
+// issuerShape: bare host / trailing slash / path / path with trailing slash (label only).
+func issuerShape(is string) string {
+	u, err := url.Parse(is)
+	if err != nil {
+		return "odd"
+	}
+	switch {
+	case u.Path == "":
+		return "host"
+	case u.Path == "/":
+		return "host-slash"
+	case strings.HasSuffix(u.Path, "/"):
+		return "path-slash"
+	}
+	return "path"
 }
 
 func onlyTimeReasons(r []string) bool {
